@@ -993,6 +993,10 @@ pub fn run(ctx: &Ctx) -> i32 {
     if matches!(ctx.prop.as_str(), "C03" | "C01" | "C02") {
         cas_versions(ctx, &sh);
     }
+    // ---- two commands released together, tens of thousands of times, with the alignment swept
+    if matches!(ctx.prop.as_str(), "C03" | "C04" | "C02" | "C08") && !miri {
+        race_sweep(ctx, &sh);
+    }
     // ---- present keys stay present while whole-store operations hold the map's locks for long
     if matches!(ctx.prop.as_str(), "C06" | "C04" | "C08") && !miri {
         long_holder_phase(ctx, &sh);
@@ -1302,6 +1306,221 @@ fn cas_versions(ctx: &Ctx, sh: &Shared) {
 /// prepend (with the same content / empty data) must succeed, get must hit with the original bytes. A look-up that
 /// gives up or misses while the shard is held shows as add overwriting a present item or replace/append/get
 /// reporting Not found.
+/// Windows that no hook point marks (inside one `Cache` call, say between a look-up and the removal that is
+/// meant to go with it) are a few instructions wide: a program run that spawns its threads per history meets
+/// them by luck. Here two persistent threads spin on a round counter, are released together, each after a
+/// seeded number of spin iterations (the alignment of the two commands is swept over a few hundred nanoseconds),
+/// and run one command each against a key the coordinator has just set up; the coordinator reads the key back.
+/// Every round's three-operation history is checked against the one-key specification.
+fn race_sweep(ctx: &Ctx, sh: &Shared) {
+    #[derive(Clone, Copy, Debug)]
+    enum R {
+        DelCur,
+        Del,
+        Set,
+        SetCur,
+        Get,
+        Append,
+        Incr,
+        Add,
+        Replace,
+    }
+    // (initial state present?, expired?, op of thread A, op of thread B)
+    let c03: Vec<(bool, bool, R, R)> = vec![
+        (true, false, R::DelCur, R::Set),
+        (true, false, R::DelCur, R::SetCur),
+        (true, false, R::SetCur, R::SetCur),
+        (true, false, R::Del, R::SetCur),
+        (true, false, R::DelCur, R::DelCur),
+        (true, true, R::Get, R::Set),
+        (false, false, R::SetCur, R::Set),
+    ];
+    let c04: Vec<(bool, bool, R, R)> = vec![
+        (true, false, R::Append, R::Del),
+        (true, false, R::Append, R::Append),
+        (true, false, R::Incr, R::Incr),
+        (false, false, R::Add, R::Add),
+        (false, false, R::Incr, R::Incr),
+        (true, false, R::Replace, R::Del),
+        (true, false, R::Append, R::Set),
+        (true, true, R::Add, R::Add),
+    ];
+    let pairs = match ctx.prop.as_str() {
+        "C04" => c04,
+        "C03" | "C02" => c03,
+        _ => {
+            let mut v = c03;
+            v.extend(c04);
+            v
+        }
+    };
+    let rounds = ctx.n(25_000, 250_000);
+    let cap = Duration::from_secs(if ctx.thorough() { 30 } else { 6 });
+    let t0 = Instant::now();
+    let parallel = (ctx.workers / 3).max(1);
+    let next = AtomicU64::new(0);
+    std::thread::scope(|scope| {
+        for _ in 0..parallel {
+            scope.spawn(|| loop {
+                let pi = next.fetch_add(1, Ordering::Relaxed) as usize;
+                if pi >= pairs.len() {
+                    break;
+                }
+                let (present, expired, ra, rb) = pairs[pi];
+                let policy = if pi % 2 == 1 { Some(1u64 << 40) } else { None };
+                let timer = VirtualTimer::new(1000);
+                let inner = Arc::new(MemoryStore::new(timer.clone()));
+                let (pol, top): (Option<Arc<RandomPolicy>>, Arc<dyn Cache + Send + Sync>) = match policy {
+                    None => (None, inner.clone()),
+                    Some(l) => {
+                        let p = Arc::new(RandomPolicy::new(inner.clone(), l));
+                        (Some(p.clone()), p)
+                    }
+                };
+                let stack = Stack::with_top(timer.clone(), inner, pol, top);
+                let go = Arc::new(AtomicU64::new(0));
+                let done = Arc::new(AtomicU64::new(0));
+                let ticket = Arc::new(AtomicU64::new(1));
+                let cur_cas = Arc::new(AtomicU64::new(0));
+                let quit = Arc::new(AtomicBool::new(false));
+                type Slot3 = Arc<Mutex<Option<(Cmd, u64, u64, u64, Option<Resp>)>>>;
+                let results: Vec<Slot3> = vec![Arc::new(Mutex::new(None)), Arc::new(Mutex::new(None))];
+                let key = b"k0".to_vec();
+                let make = move |r: R, c0: u64, who: usize, round: u64| -> (Cmd, u64) {
+                    let val = format!("{}{}", if who == 0 { "A" } else { "B" }, round % 10).into_bytes();
+                    match r {
+                        R::DelCur => (Cmd::Delete { key: 0, cas: CasArg::Raw(c0), quiet: false }, c0),
+                        R::Del => (Cmd::Delete { key: 0, cas: CasArg::Zero, quiet: false }, 0),
+                        R::Set => (Cmd::Store { op: op::SET, key: 0, value: val, flags: 3, ttl: 0, cas: CasArg::Zero, quiet: false }, 0),
+                        R::SetCur => (Cmd::Store { op: op::SET, key: 0, value: val, flags: 4, ttl: 0, cas: CasArg::Raw(c0.max(1)), quiet: false }, c0.max(1)),
+                        R::Get => (Cmd::Get { key: 0, k: false, quiet: false }, 0),
+                        R::Append => (Cmd::Concat { append: true, key: 0, value: val, cas: CasArg::Zero, quiet: false }, 0),
+                        R::Incr => (Cmd::Counter { incr: true, key: 0, delta: 1 + who as u64, initial: 50, exp: 0, cas: CasArg::Zero, quiet: false }, 0),
+                        R::Add => (Cmd::Store { op: op::ADD, key: 0, value: val, flags: 5, ttl: 0, cas: CasArg::Zero, quiet: false }, 0),
+                        R::Replace => (Cmd::Store { op: op::REPLACE, key: 0, value: val, flags: 6, ttl: 0, cas: CasArg::Zero, quiet: false }, 0),
+                    }
+                };
+                let mut hs = vec![];
+                for who in 0..2usize {
+                    let (memc, go, done, ticket, cur_cas, quit, slot, key) =
+                        (stack.memc.clone(), go.clone(), done.clone(), ticket.clone(), cur_cas.clone(), quit.clone(), results[who].clone(), key.clone());
+                    let r = if who == 0 { ra } else { rb };
+                    let seed = ctx.case_seed("race-sweep", (pi * 2 + who) as u64);
+                    hs.push(std::thread::spawn(move || {
+                        let mut rng = SmallRng::seed_from_u64(seed);
+                        let mut conn = Conn::new(memc, 1 << 20);
+                        let keys = vec![key];
+                        let mut round = 1u64;
+                        loop {
+                            while go.load(Ordering::Acquire) < round {
+                                if quit.load(Ordering::Relaxed) {
+                                    return;
+                                }
+                                std::hint::spin_loop();
+                            }
+                            if quit.load(Ordering::Relaxed) {
+                                return;
+                            }
+                            let (cmd, cas) = make(r, cur_cas.load(Ordering::Acquire), who, round);
+                            let bytes = cmd.frame(&keys, cas, round as u32).encode();
+                            for _ in 0..rng.gen_range(0..300u32) {
+                                std::hint::spin_loop();
+                            }
+                            let call = ticket.fetch_add(1, Ordering::SeqCst);
+                            let out = conn.feed(&bytes);
+                            let ret = ticket.fetch_add(1, Ordering::SeqCst);
+                            let resp = wire::parse_all(&out.bytes).ok().and_then(|mut v| v.pop());
+                            *slot.lock().unwrap() = Some((cmd, cas, call, ret, resp));
+                            done.fetch_add(1, Ordering::Release);
+                            round += 1;
+                        }
+                    }));
+                }
+                let mut conn = Conn::new(stack.memc.clone(), 1 << 20);
+                let keys = vec![key.clone()];
+                let mut local: BTreeMap<String, u64> = BTreeMap::new();
+                let mut fps: Vec<u64> = vec![];
+                let mut overlapped = 0u64;
+                for round in 1..=rounds {
+                    if t0.elapsed() > cap {
+                        break;
+                    }
+                    // set-up by the coordinator, nothing else running
+                    let _ = conn.feed(&wire::delete(op::DELETE, &key, 0, 0).encode());
+                    let init = if present {
+                        let numeric = matches!(ra, R::Incr) || matches!(rb, R::Incr);
+                        let v: Vec<u8> = if numeric { b"10".to_vec() } else { b"old".to_vec() };
+                        let o = conn.feed(&wire::store(op::SET, &key, &v, 7, if expired { 1 } else { 0 }, 0, 0).encode());
+                        let c0 = wire::parse_all(&o.bytes).ok().and_then(|mut v| v.pop()).map(|r| r.cas).unwrap_or(0);
+                        cur_cas.store(c0, Ordering::Release);
+                        if expired {
+                            timer.advance(2);
+                        }
+                        KS::Present { v, f: Some(7), c: c0, live: !expired, cl: false }
+                    } else {
+                        cur_cas.store(round + 1_000_000, Ordering::Release);
+                        KS::Absent
+                    };
+                    done.store(0, Ordering::Release);
+                    go.store(round, Ordering::Release);
+                    let w0 = Instant::now();
+                    while done.load(Ordering::Acquire) < 2 {
+                        std::hint::spin_loop();
+                        if w0.elapsed() > Duration::from_secs(20) {
+                            // a command that never returns is C16's business; stop the sweep
+                            quit.store(true, Ordering::Relaxed);
+                            sh.ev.lock().unwrap().inconclusive.push(format!("race sweep {:?}/{:?}: a command did not return within 20 s", ra, rb));
+                            return;
+                        }
+                    }
+                    let fin_call = ticket.fetch_add(1, Ordering::SeqCst);
+                    let o = conn.feed(&wire::get(op::GET, &key, 9).encode());
+                    let fin_ret = ticket.fetch_add(1, Ordering::SeqCst);
+                    let fin = wire::parse_all(&o.bytes).ok().and_then(|mut v| v.pop());
+                    let mut ops: Vec<HOp> = vec![];
+                    for (who, slot) in results.iter().enumerate() {
+                        if let Some((cmd, cas, call, ret, resp)) = slot.lock().unwrap().take() {
+                            ops.push(HOp { client: who, cmd, cas, call, ret, resp });
+                        }
+                    }
+                    ops.push(HOp { client: 2, cmd: Cmd::Get { key: 0, k: false, quiet: false }, cas: 0, call: fin_call, ret: fin_ret, resp: fin });
+                    let _ = &keys;
+                    if ops.len() == 3 && ops[0].call < ops[1].ret && ops[1].call < ops[0].ret {
+                        overlapped += 1;
+                    }
+                    *local.entry("race_sweep:rounds".into()).or_insert(0) += 1;
+                    if let LinRes::No { best } = linearizable(&ops, &init, 100_000) {
+                        let mut hsx: Vec<&HOp> = ops.iter().collect();
+                        hsx.sort_by_key(|o| o.call);
+                        let h: Vec<String> = hsx.iter().map(|o| o.brief()).collect();
+                        let tags = tags_for(&ctx.prop, &ops, &init);
+                        sh.ev.lock().unwrap().violation(
+                            Viol::new(&tags, "not-linearizable", format!("race sweep round {} ({:?} against {:?}, policy {:?}): history has no linearization from {:?} (longest linearizable prefix {} of 3 ops): {}", round, ra, rb, policy, init, best, h.join(" | "))),
+                            json!({"engine":"lin-race-sweep","pair":format!("{:?}/{:?}",ra,rb),"round":round,"init":format!("{:?}",init),"history":h}),
+                        );
+                        break;
+                    }
+                }
+                quit.store(true, Ordering::Relaxed);
+                go.store(u64::MAX, Ordering::Release);
+                for h in hs {
+                    let _ = h.join();
+                }
+                *local.entry("race_sweep:rounds_with_overlapping_commands".into()).or_insert(0) += overlapped;
+                if overlapped > 0 {
+                    fps.push(fnv(format!("race-sweep:{:?}:{:?}:{}:{}", ra, rb, present, expired).as_bytes()));
+                }
+                let mut e = sh.ev.lock().unwrap();
+                e.evaluations += 1;
+                e.merge_counters(&local);
+                for f in fps {
+                    e.nontrivial.insert(f);
+                }
+            });
+        }
+    });
+}
+
 fn long_holder_phase(ctx: &Ctx, sh: &Shared) {
     use memcrs::cache::cache::Record;
     let crowd = ctx.n(150_000, 400_000) as usize;
